@@ -17,6 +17,7 @@ class DerivedProfile(StoreProfile):
 
     def params(self, rng, tier):
         p = super().params(rng, tier)
+        p["crowd"] = rng.random() < 0.1
         p["n_entities"] = rng.randint(2, 9 if tier == "quick" else 16)
         p["n_ops"] = rng.randint(6, 14 if tier == "quick" else 40)
         p["capacity"] = rng.choice([4096, 4096, 64, 8])
